@@ -134,7 +134,9 @@ pub proof fn thm_C14_issued_signature_verifies(pk: CL03PublicKey, p: int, q: int
         igcd(ext_value(cval, bases, picked(msgs, rev), rev, pk.N@, rev.len() as int) * pow_mod(pk.b@, rprime, pk.N@) * pk.c@, pk.N@) == 1,
     ensures
         cl_equation(pk, sig, bases, msgs),
+        invertible(sig.v@, pk.N@),
 {
+    ax_gcd_pow_mod(ext_value(cval, bases, picked(msgs, rev), rev, pk.N@, rev.len() as int) * pow_mod(pk.b@, rprime, pk.N@) * pk.c@, inv_mod(sig.e@, (p - 1) * (q - 1)), pk.N@);
     let n = pk.N@;
     let l = msgs.len() as int;
     let ext = ext_value(cval, bases, picked(msgs, rev), rev, n, rev.len() as int);
